@@ -55,3 +55,39 @@ package graphql
 //@   props C04
 //@   requires returnType != nil
 //@   ensures result == nil || !isNullish_0(result)
+
+// ---- field errors (C04, C18) ----------------------------------------------------
+
+//@ func FieldASTsToNodeASTs
+//@   trusted
+//@   assigns nothing
+
+//@ func NewLocatedErrorWithPath
+//@   props C18
+//@   assigns nothing
+//@   nopanic
+//@   ensures result != nil
+//@   ensures !typeis(err, "*gqlerrors.Error") ==> result.Path == path
+
+//@ func handleFieldError
+//@   props C04 C18
+//@   opt maypanic=true
+//@   requires eCtx != nil
+//@   ensures !typeis(returnType, "*graphql.NonNull")
+//@   ensures len(eCtx.Errors) == old(len(eCtx.Errors)) + 1
+//@   panics typeis(returnType, "*graphql.NonNull")
+//@   assigns class:executionContext.Errors, class:FormattedError
+
+// ---- planned field resolution (C04, C20, C06) -------------------------------------
+
+//@ func resolvePlannedField
+//@   props C04 C20 C06
+//@   requires eCtx != nil && fp != nil && fp.fieldDef != nil
+//@   opt callback.resolveFn=maypanic
+//@   at[C20] call resolveFn: assert arg0.Source == source
+//@   at[C20] call resolveFn: assert arg0.Context == eCtx.Context
+//@   at[C20] call resolveFn: assert arg0.Info.FieldName == fp.fieldName && arg0.Info.Path == path && arg0.Info.ParentType == parentType && arg0.Info.ReturnType == fp.returnType
+//@   at[C20] call resolveFn: assert arg0.Info.RootValue == eCtx.Root && arg0.Info.Operation == eCtx.Operation && arg0.Info.VariableValues == eCtx.VariableValues && arg0.Info.FieldASTs == fp.fieldASTs
+//@   at[C20,C06] call resolveFn: assert fresh(arg0.Args) || fp.args.hasVariables
+//@   ensures[C04] resolveFnError != nil ==> result == nil
+//@   ensures[C04] ok
